@@ -18,6 +18,7 @@ package main
 import (
 	"encoding/json"
 	"fmt"
+	"math"
 	"os"
 	"sort"
 	"strings"
@@ -74,7 +75,7 @@ type Case struct {
 	// then the isolated vertices). 1: every edge first, then AddNode for EVERY vertex (also those
 	// that already have edges); 2: endpoints reversed (from > to) and every edge given twice;
 	// 3: two AddEdge calls per edge instead of AddUndirectedEdge; 4: Init(cap) first; 5: built once,
-	// Init again (a populated graph is re-initialised), built again.
+	// Init again (a populated graph is re-initialised), built again; 6: AddEdge(a,b), then AddUndirectedEdge(a,b).
 	Build int
 }
 
@@ -132,7 +133,7 @@ func (c Case) describe() map[string]any {
 			m["construction"] = "all vertices first, then the edges one by one with a query after each"
 		}
 		if c.Build > 0 {
-			m["construction"] = [...]string{"", "edges first, then AddNode for every vertex", "endpoints reversed, every edge given twice", "two AddEdge calls per edge", "Init(n) first", "built, Init(1) on the populated graph, built again"}[c.Build]
+			m["construction"] = [...]string{"", "edges first, then AddNode for every vertex", "endpoints reversed, every edge given twice", "two AddEdge calls per edge", "Init(n) first", "built, Init(1) on the populated graph, built again", "AddEdge(from,to) first, then AddUndirectedEdge(from,to)"}[c.Build]
 		}
 		if c.Kind == kBK {
 			m["P"] = append([]int(nil), c.Perm...)
@@ -255,6 +256,9 @@ func runCase(c Case) (out Outcome) {
 						case 3:
 							g.AddEdge(e[0], e[1])
 							g.AddEdge(e[1], e[0])
+						case 6:
+							g.AddEdge(e[0], e[1]) // one direction is already there when the undirected edge is added
+							g.AddUndirectedEdge(e[0], e[1])
 						default:
 							g.AddUndirectedEdge(e[0], e[1])
 						}
@@ -534,6 +538,69 @@ func knapsackSpace(r *common.Run, maxItems int) {
 	r.Section(map[string]any{"family": "Knapsack", "space": fmt.Sprintf("every ordered item list of <= %d items over weight {0,1,2,3} x value {1,2,3} (= every multiset in every order), every limit 0..sum(weights)+1, tie-breaker none / prefer-fewer-items / always-replace / never-replace", maxItems),
 		"item_lists": lists, "cases": cases, "wall_s": time.Since(t0).Seconds()})
 	r.SampleL("Knapsack", Case{Kind: kKnapsack, Items: []Item{{0, 2, 3}, {1, 1, 2}, {2, 1, 2}, {3, 0, 1}}, Limit: 2, Breaker: tbFewer}.describe())
+}
+
+// heavyItems: weights at the upper end of int (each heavier than any limit a table can be built
+// for): sums of weights must not wrap. Every ordered list of <= 4 items over six kinds, limits
+// 0, 3, 7, 10; brute force with saturating sums.
+func heavyItems(r *common.Run) {
+	hk := [][2]int{{math.MaxInt, 5}, {math.MaxInt - 1, 7}, {1 << 62, 3}, {4, 1}, {3, 2}, {0, 1}}
+	sat := func(a, b int) int {
+		if a > math.MaxInt-b {
+			return math.MaxInt
+		}
+		return a + b
+	}
+	var cases int64
+	parallel(r, 1, func(_ int, s *shard) {
+		for l := 1; l <= 4; l++ {
+			for idx := 0; idx < pow(len(hk), l); idx++ {
+				items := make([]Item, l)
+				x := idx
+				for k := l - 1; k >= 0; k-- {
+					items[k] = Item{ID: k, W: hk[x%len(hk)][0], V: hk[x%len(hk)][1]}
+					x /= len(hk)
+				}
+				for _, limit := range []int{0, 3, 7, 10} {
+					opt := 0
+					for m := 0; m < 1<<l; m++ {
+						w, v := 0, 0
+						for k := 0; k < l; k++ {
+							if m>>k&1 == 1 {
+								w, v = sat(w, items[k].W), v+items[k].V
+							}
+						}
+						if w <= limit && v > opt {
+							opt = v
+						}
+					}
+					c := Case{Kind: kKnapsack, Items: items, Limit: limit, Breaker: tbNone}
+					out := runCase(c)
+					cases++
+					s.ev++
+					s.nt++
+					if out.Panicked {
+						s.violation("Knapsack|panic|"+common.PanicSite(out.Stack), "Knapsack panicked: "+out.PanicVal, c, func() string { return "" })
+						continue
+					}
+					w, v := 0, 0
+					for _, it := range out.Sel {
+						w, v = sat(w, it.W), v+it.V
+					}
+					_, _, twice, foreign := inspect(out.Sel, c.Items)
+					switch {
+					case foreign || twice:
+						s.violation("Knapsack|item-twice|very-heavy-items", fmt.Sprintf("Knapsack returned %v: not a selection of the items", out.Sel), c, func() string { return "" })
+					case w > limit:
+						s.violation("Knapsack|over-limit|very-heavy-items", fmt.Sprintf("Knapsack returned %v whose weights add up to more than the limit %d (sums of weights near MaxInt must not wrap)", out.Sel, limit), c, func() string { return "" })
+					case v != opt:
+						s.violation("Knapsack|not-optimal|very-heavy-items", fmt.Sprintf("Knapsack returned %v with total value %d; the maximum within the limit %d is %d", out.Sel, v, limit, opt), c, func() string { return "" })
+					}
+				}
+			}
+		}
+	})
+	r.Section(map[string]any{"family": "Knapsack with weights near MaxInt", "space": "every ordered list of <= 4 items over (MaxInt,5) (MaxInt-1,7) (2^62,3) (4,1) (3,2) (0,1), limits 0 3 7 10", "cases": cases})
 }
 
 // ---------------------------------------------------------------------------------------------
@@ -913,7 +980,7 @@ func graphSpace(r *common.Run, maxN int, allPermsUpTo int) {
 				ci.Kind, ci.Incremental = kCliques, true
 				run(ci)
 				n1++
-				for b := 1; b <= 5; b++ {
+				for b := 1; b <= 6; b++ {
 					cb := base
 					cb.Kind, cb.Build = kCliques, b
 					run(cb)
@@ -964,6 +1031,9 @@ func main() {
 		graphSpace(r, graphN, allPerms)
 		dpSpace(r, dpItems)
 		knapsackSpace(r, knapItems)
+		if r.ShardIdx == 0 {
+			heavyItems(r)
+		}
 		r.Cov("map_order_executions_sum", atomic.LoadInt64(&mapExecutions))
 		r.Cov("map_order_nondefault_scripts_sum", atomic.LoadInt64(&mapScripts))
 		r.Cov("map_order_range_loops_in_default_runs_sum", atomic.LoadInt64(&mapLoops))
